@@ -117,6 +117,15 @@ def body_cons(ch, ctx):
     it2 = gffutils.DataIterator([feature_from_line(t) for t in texts], checklines=cl)
     ctx.check(dict(it2.dialect) == got, "feature-list-dialect-differs-from-path", sig, checklines=cl, file=texts[:3],
               path=got, features=dict(it2.dialect))
+    # ... and Feature objects built from the raw attribute text (no dialect given) instead of parsed lines
+    raw = []
+    for t in texts:
+        c = t.split("\t")
+        raw.append(gffutils.Feature(seqid=c[0], source=c[1], featuretype=c[2], start=c[3], end=c[4], score=c[5], strand=c[6], frame=c[7],
+                                    attributes=c[8] if len(c) > 8 else "", extra=c[9:]))
+    it5 = gffutils.DataIterator(raw, checklines=cl)
+    ctx.check(dict(it5.dialect) == got, "feature-list-dialect-differs-from-path", dict(sig, raw_attribute_text=True), checklines=cl, file=texts[:3],
+              path=got, features=dict(it5.dialect))
     # ... and so must the same text handed over as a string
     it4 = gffutils.DataIterator("\n".join(texts) + "\n", from_string=True, checklines=cl)
     ctx.check(dict(it4.dialect) == got, "string-input-dialect-differs-from-path", sig, checklines=cl, file=texts[:3],
@@ -291,6 +300,11 @@ CORNERS = [
     # '=' inside a quoted GTF value does not make the column GFF3
     ('gene_id "ENSG=1"; transcript_id "T1";', {"fmt": "gtf", "keyval separator": " ", "quoted GFF2 values": True}),
     ('gene_id "cov=100%"; note "a=b";', {"fmt": "gtf", "keyval separator": " "}),
+    # every value an empty quoted string: still quoted GTF
+    ('gene_id ""; transcript_id "";', {"fmt": "gtf", "quoted GFF2 values": True, "keyval separator": " "}),
+    # the first key begins with a digit / a non-ASCII letter: still key=value
+    ("5p_partial=yes;ID=x", {"fmt": "gff3", "keyval separator": "=", "field separator": ";"}),
+    ("\u00e9tat=1;ID=x", {"fmt": "gff3", "keyval separator": "="}),
     # quoted values under key=value stay GFF3
     ('ID="g1";Name="x y"', {"fmt": "gff3", "keyval separator": "=", "quoted GFF2 values": True}),
 ]
